@@ -9,7 +9,7 @@ PROP = Prop(
     run_timeout={"quick": 900, "thorough": 3000},
     rule="case = one restart of a real kfake (DataDir+SyncWrites) on an image of its crash-simulating file system. (A) generation 1: "
          "EVERY prefix k of the recorded fs operation sequence of a generated workload (raw produce plain/idempotent/transactional, "
-         "EndTxn, OffsetCommit, CreateTopics, InitProducerID) x tail choices K/L/K.i.n/L.i.n (thorough: every cut of every unsynced tail "
+         "EndTxn, OffsetCommit, CreateTopics, CreatePartitions with and without an explicit replica assignment, InitProducerID) x tail choices K/L/K.i.n/L.i.n (thorough: every cut of every unsynced tail "
          "of the small workloads), half of the workloads with log.segment.bytes=150 so that segments roll. (B) lineages of 2..4 "
          "generations in every order of clean Close / crash-with-tail-loss (patterns with a crash after a Close first), 35% with rolls: "
          "reset, then per generation a workload (every generation appends to t0-0), sampled crash points of that generation (peek: end "
